@@ -62,3 +62,76 @@ func VerifC08Map(tmpl string, prefilled, allowDup bool) {
 func jsontextAllowDup() Options { return jsontext.AllowDuplicateNames(true) }
 
 func zzspecValid(b []byte, unique bool) bool { return zzspec.ValidText(b, true, unique, 10000) }
+
+type zz08Sub struct {
+	A int8 `json:"a"`
+	B int8 `json:"b"`
+}
+type zz08TStruct struct {
+	X zz08Sub `json:"x"`
+}
+type zz08TMap struct {
+	X map[string]int8 `json:"x"`
+}
+type zz08TAny struct {
+	X any `json:"x"`
+}
+type zz08TRaw struct {
+	X jsontext.Value `json:"x"`
+}
+type zz08TUnknown struct {
+	Y int8 `json:"y"`
+}
+type zz08TFallbackRaw struct {
+	Y int8           `json:"y"`
+	F jsontext.Value `json:",embed"`
+}
+type zz08TFallbackMap struct {
+	Y int8           `json:"y"`
+	F map[string]any `json:",embed"`
+}
+type zz08TPtr struct {
+	X *map[string]int8 `json:"x"`
+}
+
+// VerifC08Targets: an object with two members nested under "x" (names with symbolic bytes,
+// raw or escaped) is unmarshaled into a target in which that position is: 0 a struct (both
+// names resolve to fields or are unknown), 1 a map, 2 an untyped any, 3 a raw jsontext.Value,
+// 4 a skipped unknown member, 5 an embedded raw fallback, 6 an embedded map fallback,
+// 7 a pointer to a map. Under default options the call fails iff the two names are equal
+// after unescaping (or the text is otherwise invalid); with AllowDuplicateNames it is accepted.
+func VerifC08Targets(tmpl string, target int, allowDup bool) {
+	b := vrt.Template("b", tmpl)
+	var opts []Options
+	if allowDup {
+		opts = append(opts, jsontextAllowDup())
+	}
+	var err error
+	switch target {
+	case 0:
+		err = Unmarshal(b, new(zz08TStruct), opts...)
+	case 1:
+		err = Unmarshal(b, new(zz08TMap), opts...)
+	case 2:
+		err = Unmarshal(b, new(zz08TAny), opts...)
+	case 3:
+		err = Unmarshal(b, new(zz08TRaw), opts...)
+	case 4:
+		err = Unmarshal(b, new(zz08TUnknown), opts...)
+	case 5:
+		err = Unmarshal(b, new(zz08TFallbackRaw), opts...)
+	case 6:
+		err = Unmarshal(b, new(zz08TFallbackMap), opts...)
+	default:
+		err = Unmarshal(b, new(zz08TPtr), opts...)
+	}
+	valid := zzspecValid(b, !allowDup)
+	vrt.Observe("errnil", err == nil)
+	if !valid {
+		vrt.Cover("reject")
+		vrt.Assert("C08/targets/duplicate-or-invalid-rejected", err != nil)
+		return
+	}
+	vrt.Cover("accept")
+	vrt.Assert("C08/targets/valid-accepted", err == nil)
+}
